@@ -118,7 +118,7 @@ func rpDoReplay(rp sse.Replayer, id sse.EventID, topics []string, failSend, fail
 
 func mkMsg(token string, id string, hasID bool) *sse.Message {
 	m := &sse.Message{}
-	m.AppendData(token)
+	mon.ShapeMsg(m, token)
 	if hasID {
 		m.ID = sse.ID(id)
 	}
